@@ -816,7 +816,8 @@ fn parse_json_filter(input: &[u8], output: &mut [u8]) -> Result<(usize, usize), 
 
             eat_colon_with_whitespace(input, &mut inpos)?;
             let limit = read_u64(input, &mut inpos)?;
-            let limit: u32 = limit as u32;
+            // a limit beyond u32 is as good as no limit
+            let limit: u32 = u32::try_from(limit).unwrap_or(u32::MAX);
             put(output, LIMIT_OFFSET, limit.to_ne_bytes().as_slice())?;
 
             found |= HAVE_LIMIT;
